@@ -232,7 +232,16 @@ async fn bgzf_read_history(
                 if tvp >> 16 == flat.file_len {
                     st.seek_to_end_from_nonempty_block += 1;
                 }
-                let got = r.seek(VirtualPosition::from(tvp)).await.map_err(|e| fail("unexpected-error", "seek", format!("op {i}: seek({}, {}): {e}", tvp >> 16, tvp & 0xffff)))?;
+                // every other seek goes through poll_seek, the (doc-hidden, public) entry point the
+                // csi/bam/bcf/vcf async query streams use
+                let got = if i % 2 == 1 {
+                    st.poll_seeks += 1;
+                    let mut rr = &mut *r;
+                    std::future::poll_fn(|cx| std::pin::Pin::new(&mut rr).poll_seek(cx, VirtualPosition::from(tvp))).await
+                } else {
+                    r.seek(VirtualPosition::from(tvp)).await
+                }
+                .map_err(|e| fail("unexpected-error", "seek", format!("op {i}: seek({}, {}): {e}", tvp >> 16, tvp & 0xffff)))?;
                 if u64::from(got) != tvp {
                     return Err(fail("seek-result", "seek", format!("op {i}: seek({tvp}) returned {}", u64::from(got))));
                 }
